@@ -64,6 +64,15 @@ func c06Feed(r *core.Rand, tag int) *gtfsrt.FeedMessage {
 		}
 		a.InformedEntity = append(a.InformedEntity, &gtfsrt.EntitySelector{Trip: d})
 	}
+	// the same route named again by a later selector: without direction first, with one later (and the other way round)
+	for k := 0; k < 3; k++ {
+		src := a.InformedEntity[r.Intn(nR)].Trip
+		d := &gtfsrt.TripDescriptor{RouteId: rgen.S(src.GetRouteId())}
+		if src.DirectionId == nil || r.Bool() {
+			d.DirectionId = rgen.U32(uint32(r.Intn(2)))
+		}
+		a.InformedEntity = append(a.InformedEntity, &gtfsrt.EntitySelector{Trip: d})
+	}
 	m.Entity = append(m.Entity, &gtfsrt.FeedEntity{Alert: a})
 	// elevator alerts: >= 5 groups under every policy
 	for k := 0; k < 6+r.Intn(3); k++ {
@@ -345,6 +354,12 @@ func c06Static(c *core.Ctx) {
 			ms[i].Calendar[k].Start, ms[i].Calendar[k].End = pool[4], pool[3]
 		}
 		ms[i].Agencies[0].TZ = sgen.Zones[(c.Index*2+i)%len(sgen.Zones)]
+		if i == 1 && c.Index%3 == 0 {
+			// B names A's zone in another letter case (zone names are case-sensitive: it is a different, usually unknown name)
+			z := ms[0].Agencies[0].TZ
+			ms[1].Agencies[0].TZ = core.Pick(r, []string{strings.ToLower(z), strings.ToUpper(z), strings.Title(strings.ToLower(z))})
+			c.Feature("static-zone-names-differing-in-case")
+		}
 		// nested stations with unspecified wheelchair values: station <- station <- platform chains, so that with the
 		// inheritance option a value has to travel two levels (an order-dependent pass shows up as nondeterminism)
 		if perm := r.Perm(len(ms[i].Stops)); r.Chance(2, 3) {
@@ -392,7 +407,11 @@ func c06Static(c *core.Ctx) {
 	}
 	for _, inherit := range []bool{false, true} {
 		opts := gtfs.ParseStaticOptions{InheritWheelchairBoarding: inherit}
-		for i := range bufs {
+		firstOrder := []int{0, 1}
+		if c.Index%6 == 3 {
+			firstOrder = []int{1, 0} // B is the first of the two this process ever parses (what a process-wide cache sees first matters)
+		}
+		for _, i := range firstOrder {
 			before := sha256.Sum256(bufs[i].B)
 			s, err, pan := safeParseStatic(bufs[i].B, opts)
 			c.Eval(1)
